@@ -11,6 +11,8 @@
          save_success raises -> DependencyError), every edge kind between the failing task and its dependents, serial /
          thread (deterministic scheduler) / process (token-forced completion order) runner, with and without -c;
          the observed event list must be a trace of the Lean model (driver request model=c05 = acceptor of Driver/Run);
+         optionally cut short by an exception raised by the reporter inside add_failure or by a teardown action raising
+         KeyboardInterrupt / SystemExit (serial, thread): the failure must still be forgotten on disk;
       C  the next run on the same DB with every input exactly as the last successful execution saw it and every action
          succeeding: shows whether a failed task is still "remembered".
 (P) the statement on the implementation's behaviour: Lean monitors C05_no_dependent_runs / C05_serial_stops /
@@ -42,7 +44,7 @@ META = {
     'lean_props': ['DoitModel.Props.C05'],
     'level': 'proof',
     'budget': {'quick': 40, 'thorough': 480},
-    'anchors': ['doit/action.py::CmdAction.execute', 'doit/runner.py::Runner._handle_task_error', 'doit/runner.py::Runner.select_task',
+    'anchors': ['doit/runner.py::Runner.finish', 'doit/runner.py::Runner.run_all', 'doit/action.py::CmdAction.execute', 'doit/runner.py::Runner._handle_task_error', 'doit/runner.py::Runner.select_task',
                 'doit/runner.py::Runner.process_task_result', 'doit/runner.py::Runner.run_tasks',
                 'doit/runner.py::Runner.execute_task', 'doit/runner.py::MRunner.get_next_job',
                 'doit/runner.py::MRunner.run_tasks', 'doit/runner.py::MRunner._process_result',
@@ -86,7 +88,7 @@ META = {
                   'pass), is fully processed, and that its nTasks-round fixed-point iterations are complete.',
     'rule': 'runlib DAG generator (3-8 tasks, all edge kinds, groups, shared deps, calc deliveries, up-to-date and '
             'ignored tasks) with failure-heavy oracle: outcome failed/error/saveerr x how return/raise/object, status '
-            'error (missing file_dep), cmd-action placements (exit status 1/2/126/127/200, death by SIGKILL/SIGTERM/SIGSEGV, list and shell form); backend json|dbm|sqlite3; warm-up run or not; runner serial | thread k=1..4 x '
+            'error (missing file_dep), runs cut short by a raising reporter / an interrupting teardown, cmd-action placements (exit status 1/2/126/127/200, death by SIGKILL/SIGTERM/SIGSEGV, list and shell form); backend json|dbm|sqlite3; warm-up run or not; runner serial | thread k=1..4 x '
             'schedule policy | process k=2,3; non-trivial = at least one failure report and one dependency edge; '
             'distinct = distinct rendered case + backend + warm + schedule',
     'assumptions': ['actions touch only their own targets (granularity assumption of M1 for thread mode)',
@@ -184,6 +186,12 @@ def prepare(case):
         # task.values and delivers them; the model delivers only from executed-and-saved / up-to-date tasks
         if t['outcome'] == 'saveerr' and t.get('calc_res') is not None:
             t['calc_res'] = None
+    ab = case.get('abort')
+    if ab:
+        if case.get('runner') == 'process' or ab.get('task') not in byname or byname[ab['task']]['kind'] == 'group':
+            case['abort'] = None        # (process runner: teardowns run in the children; not planted there)
+        elif ab['kind'] == 'teardown':
+            byname[ab['task']]['teardown'] = True
     case['model'] = runlib.expand(case)
     return case
 
@@ -221,6 +229,23 @@ def gen_case(rng, runner='serial', **knobs):
         c['policy'] = runlib.gen_policy(rng, c['nproc'])
     c['backend'] = backend or rng.choice(BACKENDS)
     c['warm'] = (rng.random() < 0.65) if warm is None else warm
+    # runs that are cut short by an exception raised from the reporter (inside add_failure) or by a teardown action that
+    # raises KeyboardInterrupt / SystemExit: the failure must still be forgotten ON DISK
+    r = rng.random()
+    if c['runner'] != 'process' and r < 0.2:
+        failing = [t for t in c['tasks'] if t['kind'] != 'group' and not t['ignored']
+                   and (t['status'] == 'error' or (t['status'] == 'run' and t['outcome'] != 'ok'))]
+        if r < 0.1:
+            pool_ = failing or [t for t in c['tasks'] if t['kind'] != 'group']
+            c['abort'] = {'kind': 'report', 'task': rng.choice(pool_)['name']}
+        else:
+            runs = [t for t in c['tasks'] if t['kind'] != 'group' and t['status'] == 'run' and not t['ignored']]
+            pool_ = [t for t in failing if t['status'] == 'run'] if rng.random() < 0.6 else runs
+            pool_ = pool_ or runs or [t for t in c['tasks'] if t['kind'] != 'group']
+            c['abort'] = {'kind': 'teardown', 'task': rng.choice(pool_)['name'],
+                          'exc': rng.choice(['KeyboardInterrupt', 'SystemExit'])}
+        if warm is None and rng.random() < 0.7:
+            c['warm'] = True
     return prepare(c)
 
 
@@ -273,6 +298,33 @@ def _make_flag(cell, t):
     return flag
 
 
+class PlantReporter(runlib.RecReporter):
+    """the recording reporter; in run B its add_failure raises for the planted task (after recording the report), as a
+    reporter does that cannot print the failure (the seeded demo: ASCII-only stdout, non-ASCII character in the message)"""
+    plant = None        # (task name, cell) while run B is in progress
+
+    def add_failure(self, task, fail):
+        runlib.RecReporter.add_failure(self, task, fail)
+        pl = PlantReporter.plant
+        if pl is not None and task.name == pl[0]:
+            pl[1]['aborted'] = 'report'
+            raise RuntimeError('reporter cannot print the failure of %s' % task.name)
+
+
+def _make_teardown(rec, cell, n, t, case):
+    base = runlib._make_teardown(rec[0], n)
+    ab = case.get('abort') or {}
+
+    def teardown():
+        base()
+        if cell['phase'] == 'B' and ab.get('kind') == 'teardown' and ab.get('task') == t['name']:
+            cell['aborted'] = 'teardown'
+            if ab.get('exc') == 'SystemExit':
+                raise SystemExit(3)
+            raise KeyboardInterrupt()
+    return teardown
+
+
 def build_namespace(case, rec, cell):
     from doit.task import result_dep
     tasks = case['tasks']
@@ -311,11 +363,11 @@ def build_namespace(case, rec, cell):
             if t['getargs']:
                 d['getargs'] = {a: (src, key) for a, src, key in t['getargs']}
             if t['teardown']:
-                d['teardown'] = [runlib._make_teardown(rec[0], n)]
+                d['teardown'] = [_make_teardown(rec, cell, n, t, case)]
             yield d
     return {'task_gen': task_gen,
             'DOIT_CONFIG': {'dep_file': 'depdb', 'backend': case['backend'], 'verbosity': 0,
-                            'reporter': runlib.RecReporter}}
+                            'reporter': PlantReporter}}
 
 
 def _write(path, text):
@@ -434,9 +486,13 @@ def run_phases(case, watchdog=None, keep_raw=False):
                 signal.setitimer(signal.ITIMER_REAL, watchdog)
             err_b = io.StringIO()
             sys.stderr = err_b
+            ab = case.get('abort') or {}
+            if ab.get('kind') == 'report':
+                PlantReporter.plant = (ab['task'], cell)
             try:
                 code, exc = _doit(ns, runlib.argv_of(case))
             finally:
+                PlantReporter.plant = None
                 sys.stderr = err
                 if use_alarm:
                     signal.setitimer(signal.ITIMER_REAL, 0)
@@ -498,6 +554,7 @@ def run_phases(case, watchdog=None, keep_raw=False):
                 runlib._reap_children()
             runlib._REC = None
     stderr_text = err_b.getvalue() if err_b is not None else err.getvalue()
+    obs['aborted'] = cell.get('aborted')
     obs.update({'trace': runlib.canonical_trace(raw, runner), 'exit': code,
                 'err': runlib.classify_err(exc, stderr_text),
                 'stderr': stderr_text[-600:], 'ms': round((time.time() - t0) * 1000, 2)})
@@ -710,6 +767,11 @@ def render(case):
     for t in case['tasks']:
         if t.get('outcome') == 'saveerr':
             extra.append('%s: its file_dep gone_%s is deleted while it executes (cannot be saved)' % (t['name'], fsname(t['name'])))
+    ab = case.get('abort')
+    if ab and ab['kind'] == 'report':
+        extra.append('the reporter raises inside add_failure(%s) in the failing run' % ab['task'])
+    elif ab:
+        extra.append('the teardown action of %s raises %s in the failing run' % (ab['task'], ab.get('exc', 'KeyboardInterrupt')))
     head = 'backend=%s  warm-up run=%s' % (case.get('backend'), case.get('warm'))
     return head + '\n' + runlib.render(case) + ('\n' + '\n'.join(extra) if extra else '')
 
@@ -720,6 +782,7 @@ def make_witness(case, obs, failed, py, lean, detail):
     w['recorded_after_run'] = obs.get('recorded')
     w['next_run'] = obs.get('next')
     w['warm_up'] = obs.get('warm')
+    w['aborted_by'] = obs.get('aborted')
     return w
 
 
@@ -747,7 +810,8 @@ def judge(case, obs, ans, st, shrink_left):
         lean = lean_flags(ans)
         if ans.get('skipped'):
             st.count('model_search_skipped')
-        st.count('model:accepted' if ans.get('accepted') else 'model:rejected')
+        if not obs.get('aborted'):
+            st.count('model:accepted' if ans.get('accepted') else 'model:rejected')
     failed, py, wit = failing_keys(case, obs, lean)
     used = 0
     if failed:
@@ -782,6 +846,10 @@ def judge(case, obs, ans, st, shrink_left):
         if disagree:
             st.divergence(make_witness(case, obs, disagree, py, lean, wit),
                           'python and Lean monitors disagree on %s' % disagree)
+        elif obs.get('aborted'):
+            # the run was cut short by the planted exception (reporter / teardown): M1 has no such transition; only the
+            # property statements are evaluated on these runs
+            st.count('aborted_run:acceptance_not_applicable')
         elif not ans.get('accepted') and not ans.get('skipped'):
             w = make_witness(case, obs, [], py, lean, {})
             w['matched'] = ans.get('matched')
@@ -796,6 +864,9 @@ def judge(case, obs, ans, st, shrink_left):
 
 def count_case(st, case, obs):
     runlib.count_case(st, case, obs)
+    if case.get('abort'):
+        st.count('abort_plant:%s' % case['abort']['kind'])
+        st.count('abort_plant_fired:%s' % obs.get('aborted'))
     st.count('backend:%s' % case['backend'])
     st.count('warm:%s' % case['warm'])
     kinds = set()
@@ -1070,7 +1141,7 @@ def replay(ctx, data):
     print(render(case))
     obs = run_phases(case)
     print('warm-up run   :', obs.get('warm'))
-    print('run B exit=%s err=%s' % (obs['exit'], obs['err']))
+    print('run B exit=%s err=%s aborted_by=%s' % (obs['exit'], obs['err'], obs.get('aborted')))
     print('run B trace   :', runlib.render_trace(case, obs['trace']))
     if obs.get('stderr'):
         print('stderr:', obs['stderr'][-400:])
@@ -1088,6 +1159,7 @@ def replay(ctx, data):
     if lean is not None:
         print('model accepts the trace:', ans.get('accepted'), '' if ans.get('accepted') else
               '(matched %s, model could emit %s)' % (ans.get('matched'), ans.get('expected')))
-        if data.get('failed') == 'correspondence' and not ans.get('accepted') and not ans.get('skipped'):
+        if data.get('failed') == 'correspondence' and not ans.get('accepted') and not ans.get('skipped') \
+                and not obs.get('aborted'):
             return False
     return True
